@@ -547,24 +547,31 @@ fn cross_check(s: &Session, built: &[Built], out: &RunOut, dsl: &str) -> Result<
                 if got != want {
                     return Err(Verdict::fail(format!("parse_transactions differs from the library's parse of the same input\n{dsl}")));
                 }
-                if !cli_done && !ledger.is_empty() {
+                // "the same input" for the CLI is the same DSL text (the CLI has no JSON reader; a
+                // JSON rendering may spell a zero fee "0.00" where the DSL omits the clause)
+                if !cli_done && !ledger.is_empty() && matches!(r, Req::Parse { dsl: true }) {
                     let sc = Scratch::new("c20");
                     let f = sc.write("in.cgt", &(dsl.to_string() + "\n"));
                     let o = proc::run_cli(&sc, &["parse", &f.to_string_lossy()]);
                     let cli: Value = serde_json::from_slice(&o.stdout).unwrap_or(Value::Null);
                     if cli != got {
-                        return Err(Verdict::fail(format!("parse_transactions differs from `cgt-tool parse`\n{dsl}")));
+                        let first = match (cli.as_array(), got.as_array()) {
+                            (Some(a), Some(b)) => a.iter().zip(b.iter()).find(|(x, y)| x != y).map(|(x, y)| format!("cli {x} vs mcp {y}")).unwrap_or_else(|| format!("{} vs {} transactions", a.len(), b.len())),
+                            _ => format!("cli output: {}", truncate(&o.describe(), 300)),
+                        };
+                        return Err(Verdict::fail(format!("parse_transactions differs from `cgt-tool parse`: {first}\n{dsl}")));
                     }
                 }
             }
-            Req::Calc { year, .. } => {
+            Req::Calc { year, json_input } => {
                 let Outcome::Ok(rep) = tool::calc_with(ledger, *year, Some(fx), &cfg) else { continue };
                 let got: Value = serde_json::from_str(&text).map_err(|e| Verdict::fail(format!("calculate_report result is not JSON: {e}")))?;
                 let want = json!({"tax_years": rep.tax_years, "holdings": rep.holdings});
                 if got != want {
                     return Err(Verdict::fail(format!("calculate_report (year {year:?}) differs from the library's report\n{dsl}\n--- mcp ---\n{}\n--- library ---\n{}", truncate(&got.to_string(), 800), truncate(&want.to_string(), 800))));
                 }
-                if !cli_done {
+                // (CLI comparison on the same DSL text only, see above)
+                if !cli_done && !*json_input {
                     cli_done = true;
                     let sc = Scratch::new("c20");
                     let f = sc.write("in.cgt", &(dsl.to_string() + "\n"));
